@@ -76,6 +76,11 @@ def c16_base_cases(tier, seed):
                             'arelease 1', 'arelease 0']),
         ('slices_share', ['aalloc 0 5 4', 'aalloc 1 5 4', 'aalloc 2 5 4', 'asize 0', 'asize 1', 'asize 2', 'aalloc 0 3 4',
                           'aalloc 1 3 4', 'areset 2', 'aalloc 2 1 4']),
+        # requests whose size in bytes cannot be represented, on objects that already manage something
+        ('unrepresentable_on_owner', ['aalloc 0 5 4', 'aalloc 0 9223372036854775808 4', 'asize 0', 'adata 0', 'aalloc 0 2 4',
+                                      'aset 1 0 10 4', 'aalloc 1 18446744073709551615 2', 'asize 1', 'adata 1', 'arelease 1',
+                                      'aalloc 2 4 4', 'aslice 2 1 3 1', 'aalloc 1 4611686018427387904 8', 'asize 1', 'asize 2',
+                                      'adata 1']),
         ('slice_after_alloc', ['aalloc 0 5 4', 'aslice 0 1 4 1', 'aalloc 0 6 4', 'asize 1', 'aat 1 0', 'aunslice 1 2',
                                'aalloc 1 2 4', 'asize 2', 'areset 0']),
     ]
